@@ -709,7 +709,16 @@ class Interp:
             return False
         if op == "+":
             # text built up by concatenation of names whose values are strings: keep order whenever a string literal occurs inside
-            if any(is_const(x) and isinstance(x[1], str) for x in walk(a)) or any(is_const(x) and isinstance(x[1], str) for x in walk(b)):
+            def stringy(t):
+                # a string literal reachable through concatenation / formatting / selection only (not inside call arguments or subscripts)
+                if is_const(t):
+                    return isinstance(t[1], (str, bytes))
+                if t[0] == "bin" and t[1] in ("+", "%", "*"):
+                    return stringy(t[2]) or stringy(t[3])
+                if t[0] == "phi":
+                    return any(stringy(x) for x in t[2:] if isinstance(x, tuple))
+                return False
+            if stringy(a) or stringy(b):
                 return False
         return True
 
